@@ -141,6 +141,18 @@ def canon(v):
         return int(v)
     if isinstance(v, (list, tuple)):
         return [canon(x) for x in v]
+    if isinstance(v, dict) and not (len(v) == 1 and "x" in v):
+        return {k: canon(x) for k, x in v.items()}
+    return v
+
+
+def uncanon(v):
+    if isinstance(v, dict):
+        if len(v) == 1 and "x" in v and isinstance(v["x"], str):
+            return bytes.fromhex(v["x"])
+        return {k: uncanon(x) for k, x in v.items()}
+    if isinstance(v, list):
+        return [uncanon(x) for x in v]
     return v
 
 
@@ -154,7 +166,7 @@ def load_known(pid):
 
 def write_replay(pid, payload):
     os.makedirs(REPLAYS, exist_ok=True)
-    blob = json.dumps(payload, indent=1, sort_keys=True, default=str)
+    blob = json.dumps(canon(payload), indent=1, sort_keys=True, default=str)
     h = hashlib.sha1(blob.encode()).hexdigest()[:12]
     path = os.path.join(REPLAYS, f"{pid}-{h}.json")
     with open(path, "w") as fh:
@@ -349,7 +361,7 @@ def run_check(prop: Prop, tier: str, seed: int) -> int:
     seen = set()
     nontriv = 0
     for c in cases:
-        h = json.dumps(c, sort_keys=True, default=str)
+        h = json.dumps(canon(c), sort_keys=True, default=str)
         if h in seen:
             continue
         seen.add(h)
@@ -358,7 +370,7 @@ def run_check(prop: Prop, tier: str, seed: int) -> int:
     samples = []
     step = max(1, len(cases) // 5)
     for i in range(0, len(cases), step):
-        samples.append({"case": cases[i], "implementation": impl[i], "model": model_ans[i]})
+        samples.append({"case": canon(cases[i]), "implementation": impl[i], "model": model_ans[i]})
         if len(samples) >= 5:
             break
     for t in b.theorems[:3]:
@@ -420,6 +432,8 @@ def run_replay(prop: Prop, path: str) -> int:
     with open(path) as fh:
         payload = json.load(fh)
     case = payload.get("case") or (payload.get("first_difference") or {}).get("case")
+    if case is not None and getattr(prop, "binary_cases", False):
+        case = uncanon(case)
     if case is None:
         print("replay file carries no input (no-failing-input-found); see 'no_longer_checks':")
         print(json.dumps(payload.get("no_longer_checks"), indent=1))
